@@ -11,13 +11,14 @@ removed or edited changes the regenerated list and breaks `extracted_hashIterSit
 * 173038111052748, 15429173550462, 121116349250812, 228471119755440 — `….extend(….keys())` into a `HashSet`
 * 239851127985668, 196435004659758 — collected into a `Vec` that is sorted (by source position) before use
 * 232281367726254, 219634149212571 — checks of struct / enum definitions: results inserted into maps, errors sorted before they are returned
+* 210033054042292 — check.rs `recursive_type_defs` (added by the repair b55cce2): the structs and enums that contain themselves, reported as errors that are sorted before they are returned
 * 62550387906933 (×3), 1808163508982 — check.rs function definitions: memoised per function, results inserted into a map, errors sorted
 * 44879991132955 — circuit.rs `mux_panic`: set intersection collected into a `HashSet` (membership only; `C06_cache_order_irrelevant`)
 * 139336795336792 (×2), 97798661449871, 212692210310585 — compile.rs external constants: inserted into maps / the root scope (a `BTreeMap`), errors sorted -/
 def auditedHashIterSites : List Nat :=
   [1808163508982, 15429173550462, 44879991132955, 62550387906933, 62550387906933, 62550387906933,
    97798661449871, 121116349250812, 139336795336792, 139336795336792, 140675055192907, 157571442035425,
-   173038111052748, 196435004659758, 212692210310585, 219634149212571, 228471119755440, 232281367726254,
+   173038111052748, 196435004659758, 210033054042292, 212692210310585, 219634149212571, 228471119755440, 232281367726254,
    239851127985668, 255125816731939]
 
 theorem extracted_hashIterSites : Extracted.hashIterSites = auditedHashIterSites := by decide
